@@ -63,6 +63,15 @@ CLAIMED["C20"] = (
     "Decides that the decoder removes exactly what the encoder's format writes for every chunk index (delimiter-based cut at the encoder's delimiter, which an unsigned decimal counter cannot contain; a fixed-width strip is accepted only with an index bound), that entries start with the prefix parameter and carry a slice of the value, that no slice/index/division in either function can panic (clamped bounds; constant prefixes at every call site), and that B + digits + delimiter <= 255 for every index a ClientHello-sized payload can need. Content equality of the round trip for every payload is not decided.",
     _T, "DESIGN.md 5/C20")
 
+CLAIMED["C15"] = (
+    "slice alias/append analysis of the listener's shared option slice (capacity-exact store or no reachable append, through phis, re-slices and variadic forwarding) + write-set checks on listener fields and package variables + allocation-site dominance for per-connection state",
+    "Decides the structural isolation conditions: the option slice stored in the listener is capacity-exact so that each of the (currently 5) append sites on its aliases reallocates instead of writing shared memory; no listener field is written after construction; the per-connection ClientInfo is allocated after each successful base accept and escapes only to that handshake's callback; no package-level state is written in the handshake packages. Races inside application storage, fairness, and equality with a sequential run are not decided.",
+    _T, "DESIGN.md 5/C15")
+CLAIMED["C16"] = (
+    "value-provenance of the reported protocol list (zero-length start, single append of the range element, only the certificate-preference filter) + guard-cut for client state + defensive-copy shape checks + C05's gate",
+    "Decides that the protocol list reported for a connection is built by appending each offered entry, in order, to an empty slice, skipping only certificate-preference entries; that client state is taken from the certificate function's response on its success edge (and is set there only behind C05's gate); that Accept hands exactly this connection's metadata to NewConn; and that NewConn/ClientNextProtos copy. Equality of client state for every structure (protobuf round trip) is not decided.",
+    _T, "DESIGN.md 5/C16")
+
 _PENDING = "check not built yet in this round (design in DESIGN.md section 5); will be claimed once its rules are exact on the repaired tree"
 for _p in ["C01","C02","C03","C04","C06","C07","C08","C09","C10","C11","C12","C13","C14","C15","C16","C17","C18","C19","C20"]:
     if _p not in CLAIMED:
